@@ -59,7 +59,24 @@ def half_ulp(printed_text, digits=9):
 def case_gen(draw, all_flags=False):
     content = draw(slha.contents())
     flags = list(draw(st.sampled_from(ALL_FLAGS)))
-    return {"content": content, "flags": flags}
+    problem = None
+    if content["kind"] in ("gm2calc", "slha") and draw(st.integers(0, 3)) == 0:
+        # a point with a flagged problem (tachyon / negative soft mass), reported under force-output: the reports
+        # must still agree with the library; the detailed report takes its "without resummation" lines from a
+        # fallback path then
+        problem = "tachyon" if content["kind"] == "gm2calc" else "negsoft"
+        flags[2] = 1
+    return {"content": content, "flags": flags, "problem": problem, "pick": draw(st.integers(0, 1000))}
+
+
+def case_content(case):
+    c = case["content"]
+    if case.get("problem"):
+        from . import c16_unphysical as c16
+        c2 = c16.cli_apply(c, case["problem"], case.get("pick"))
+        if c2 is not None:
+            return c2
+    return c
 
 
 def with_config(content, fmt, flags):
@@ -134,7 +151,9 @@ def check_slha_echo(intext, out):
 
 
 def prop(case):
-    content, flags = case["content"], tuple(case["flags"])
+    content, flags = case_content(case), tuple(case["flags"])
+    if case.get("problem"):
+        label("problem-point-under-force-output")
     kind = content["kind"]
     bad = []
     values = {}
@@ -246,6 +265,10 @@ def prop(case):
                     ("1L approximation with tan(beta) resummation", "B-muL-muR"): r("amu1LBmuLmuR") * tbc,
                     ("1L approximation with tan(beta) resummation", "sum"): r("amu1Lapprox"),
                     ("2L best with tan(beta) resummation", "value"): a2,
+                    ("full 1L without tan(beta) resummation", "value"): r("amu1L_nontb_forced"),
+                    ("2L best without tan(beta) resummation", "value"): r("amu2L_nontb_forced"),
+                    ("tan(beta) correction", "value"): (tbc - 1.0) * r("amu1L_nontb_forced")
+                    if r("amu1L_nontb_forced") is not None else None,
                     ("photonic with tan(beta) resummation", "chi^0"): r("amu2LChi0Photonic"),
                     ("photonic with tan(beta) resummation", "chi^+-"): r("amu2LChipmPhotonic"),
                     ("photonic with tan(beta) resummation", "sum"): r("amu2LChi0Photonic") + r("amu2LChipmPhotonic"),
@@ -302,13 +325,17 @@ def prop(case):
                         bad.append({"kind": "percentage", "what": "percentage != 100 x own component / (1L + 2L)",
                                     "line": key, "printed": d[key][1], "expected": 100.0 * num / best if best else None})
     # the numeric formats carry the same number
+    def distinct(vs):
+        fs = [float(v) for v in vs if v is not None]
+        return len({("nan" if x != x else x) for x in fs})     # NaN (problem point under force-output) equals NaN
+
     if not case["flags"][4]:
         nums = {f: v for f, v in values.items()}
-        if len({float(v) for v in nums.values() if v is not None}) > 1:
+        if distinct(nums.values()) > 1:
             bad.append(("output formats disagree on a_mu", nums))
     else:
         nums = {f: v for f, v in values.items() if f != 0}
-        if len({float(v) for v in nums.values()}) > 1:
+        if distinct(nums.values()) > 1:
             bad.append(("SLHA output formats disagree on a_mu", nums))
     if tuple(flags) == DEFAULT_FLAGS:
         trivial()
